@@ -61,11 +61,15 @@ class StatementSplitter:
 
         # BEGIN and CASE/WHEN both end with END
         if unified == 'END':
+            # only lower the level if this END closes something that
+            # raised it
             if self._case_depth > 0:
                 self._case_depth -= 1
-            else:
-                self._begin_depth = max(0, self._begin_depth - 1)
-            return -1
+                return -1
+            if self._begin_depth > 0:
+                self._begin_depth -= 1
+                return -1 if self._is_create else 0
+            return 0
 
         if (unified in ('IF', 'FOR', 'WHILE', 'CASE')
                 and self._is_create and self._begin_depth > 0):
